@@ -13,7 +13,14 @@ def _validate(doc):
     if jsonschema and os.path.exists(SCHEMA):
         jsonschema.validate(doc, json.load(open(SCHEMA)))
         return
-    # minimal built-in validation (same required keys)
+    # minimal built-in validation (same required keys and the types the schema fixes for named coverage keys)
+    types = {"evaluations": int, "distinct_nontrivial": int, "rule": str, "samples": list, "states": int, "transitions": int,
+             "traces_validated_against_impl": int, "obligations": int, "discharged": int, "checker_cmd": str, "trusted_base": list,
+             "programs": int, "disagreements_checked": int, "explanation": str, "exhaustive": bool}
+    for k, t in types.items():
+        if k in doc.get("coverage", {}):
+            v = doc["coverage"][k]
+            assert isinstance(v, t) and not (t is int and isinstance(v, bool)), "coverage.%s must be %s" % (k, t.__name__)
     for k in ("property_id", "tier", "seed", "level", "coverage", "wall_s"):
         assert k in doc, k
     assert doc["tier"] in ("quick", "thorough")
